@@ -248,7 +248,11 @@ static void wrapint_checks(Tape &t, CaseCtx &ctx) {
   // --- constructors ---------------------------------------------------------
   auto mk = [&](uint64_t v, unsigned r) -> wrapint {
     switch (r) {
-    case 1: return wrapint(z_of(sx(v, w)), w);
+    case 1:
+      // z_number -> int64_t of INT64_MIN negates INT64_MIN (lib/bignums.cpp:34, UB, C20 territory)
+      if (w == 64 && v == smin_u(64) && excluded_known("z_number_to_int64_min_negation_ub"))
+        return wrapint(v, w);
+      return wrapint(z_of(sx(v, w)), w);
     case 2: return wrapint(std::to_string(v), w);
     default: return wrapint(v, w);
     }
@@ -280,6 +284,8 @@ static void wrapint_checks(Tape &t, CaseCtx &ctx) {
     WCHECK(ctx, s.get_uint64_t() == (raw & m) && s.get_bitwidth() == w, "wrapint_ctor_str_wrong",
            "wrapint(\"" << raw << "\"," << w << ") = " << s.get_uint64_t() << " expected " << (raw & m));
     int64_t n = t.i64_pool();
+    if (n == INT64_MIN && excluded_known("z_number_to_int64_min_negation_ub"))
+      n = INT64_MIN + 1;
     z_number zn(n);
     WCHECK(ctx, wrapint::fits_wrapint(zn, w), "wrapint_fits_wrong", "fits_wrapint(" << n << "," << w << ") is false");
     try {
@@ -417,6 +423,8 @@ static void wrapint_checks(Tape &t, CaseCtx &ctx) {
       } catch (const crab_error &) {
         R().cls("a_srem_intmin_by_minus1_observed_crab_error");
       }
+    } else if (w == 64 && x == smin_u(64) && y == 1 && excluded_known("z_number_to_int64_min_negation_ub")) {
+      // quotient INT64_MIN is converted z_number -> int64_t inside sdiv
     } else {
       val("sdiv", r, w, [&] { return wx.sdiv(wy); });
       val("div_operator", r, w, [&] { return wx / wy; });
@@ -684,6 +692,8 @@ static wi_t build(const WI &a, Tape &t) {
   unsigned route = t.pick(4);
   if (route == 1 && a.s == a.e)
     return wi_t(wrapint(a.s, w));
+  if ((route == 2 || route == 3) && w == 64 && a.s == smin_u(64) && excluded_known("z_number_to_int64_min_negation_ub"))
+    route = 0;
   if (route == 3 && a.s == a.e)
     return wi_t::mk_winterval(z_of(sx(a.s, w)), w);
   if (route == 2) {
@@ -960,6 +970,9 @@ static void winterval_checks(Tape &t, CaseCtx &ctx) {
       if (B.s == 0 && excluded_known("wint_shl_w64_shift0_ub"))
         break;
     }
+    if (base_of(op) == B_SDIV && w == 64 && A.kind == 2 && !wi_full(A) && B.kind == 2 && !wi_full(B) && wi_has(A, smin_u(64)) &&
+        wi_has(B, 1) && excluded_known("z_number_to_int64_min_negation_ub"))
+      break; // an endpoint quotient INT64_MIN / 1 is converted z_number -> int64_t inside wrapint::sdiv
     if (op == O_ASHR && A.kind == 2 && !wi_full(A) && B.kind == 2 && B.s == B.e && B.s == 0 && w == 64 &&
         excluded_known("wrapint_ashr_shift0_w64_wrong"))
       break;
@@ -1315,6 +1328,8 @@ static void winterval_checks(Tape &t, CaseCtx &ctx) {
       // single number
       {
         i128 n = (i128)t.i64_pool();
+        if (n == (i128)INT64_MIN && excluded_known("z_number_to_int64_min_negation_ub"))
+          n += 1;
         bool big = t.pick(8) == 7;
         if (big)
           n = ((i128)1 << 63) + t.pick(3) + ((i128)t.pick(4) << 64), n = t.flag() ? -n - 2 : n;
@@ -1349,6 +1364,8 @@ static void winterval_checks(Tape &t, CaseCtx &ctx) {
           if (lb < (i128)INT64_MIN)
             lb = (i128)INT64_MIN, span = (u128)INT64_MAX;
         }
+        if (lb == (i128)INT64_MIN && excluded_known("z_number_to_int64_min_negation_ub"))
+          lb += 1, span -= (span ? 1 : 0);
         i128 ub = lb + (i128)span;
         bool wide = span >= ((u128)1 << w);
         wi_t r = wi_t::mk_winterval(z_of(lb), z_of(ub), w);
